@@ -86,7 +86,7 @@ func ruleCCITTRunBoundary(c *core.Ctx) {
 		o.Require(n == 1, "expected one overflow comparison of total with Columns, found %d", n)
 		// the terminating states end the run
 		src := c.Prog.Src(fn.Decl.Body)
-		o.Require(strings.Contains(src, "st==S_TermW||st==S_TermB||st==S_EOL||r.err!=nil"), "the run must end at a terminating code, at EOL or on error")
+		o.Shape(strings.Contains(src, "st==S_TermW||st==S_TermB||st==S_EOL||r.err!=nil"), "the run must end at a terminating code, at EOL or on error")
 	})
 }
 
@@ -188,9 +188,9 @@ func ruleFilterKeys(c *core.Ctx) {
 		pc := c.Prog.Func("pdf", "parseCCITTFax")
 		src := c.Prog.Src(pc.Decl.Body)
 		o.At(pc.Site(pc.Decl, ""))
-		o.Require(strings.Contains(src, "Columns:1728,"), "CCITTFax /Columns default on read is not 1728")
+		o.Shape(strings.Contains(src, "Columns:1728,"), "CCITTFax /Columns default on read is not 1728")
 		tp := c.Prog.Func("pdf", "FilterCCITTFax.toParams")
-		o.Require(strings.Contains(c.Prog.Src(tp.Decl.Body), "ifcols==0{cols=1728}"), "CCITTFax zero Columns is not mapped to the default 1728 for the codec")
+		o.Shape(strings.Contains(c.Prog.Src(tp.Decl.Body), "ifcols==0{cols=1728}"), "CCITTFax zero Columns is not mapped to the default 1728 for the codec")
 		pp := c.Prog.Func("pdf", "predictParams")
 		ps := c.Prog.Src(pp.Decl.Body)
 		o.At(pp.Site(pp.Decl, ""))
@@ -316,7 +316,7 @@ func ruleOpenStreamFilterOrder(c *core.Ctx) {
 		fn := c.Prog.Func("pdf", "appendFilter")
 		src := c.Prog.Src(fn.Decl.Body)
 		o.At(fn.Site(fn.Decl, ""))
-		o.Require(strings.Contains(src, "forlen(pp)<len(filter)"), "the parameter array is not padded to the length of the filter array before appending")
+		o.Shape(strings.Contains(src, "forlen(pp)<len(filter)"), "the parameter array is not padded to the length of the filter array before appending")
 	})
 }
 
@@ -402,7 +402,7 @@ func ruleLZWConstants(c *core.Ctx, rule string) {
 			src := c.Prog.Src(fn.Decl.Body)
 			if strings.Contains(src, "currentWidth=1+") {
 				o.At(fn.Site(fn.Decl, "initial width"))
-				o.Require(strings.Contains(src, "currentWidth=1+litWidth") || strings.Contains(src, "currentWidth=1+uint(litWidth)"), "%s: initial code width is not litWidth+1", fn.Key)
+				o.Shape(strings.Contains(src, "currentWidth=1+litWidth") || strings.Contains(src, "currentWidth=1+uint(litWidth)"), "%s: initial code width is not litWidth+1", fn.Key)
 			}
 		}
 		// the early-change offset: both sides derive it from the same boolean parameter
